@@ -22,6 +22,48 @@ pub struct Receiver<T> {
 pub struct SendError<T>(pub T);
 #[derive(PartialEq, Eq, Clone, Copy, Debug)]
 pub struct RecvError;
+#[derive(PartialEq, Eq, Clone, Copy, Debug)]
+pub struct SelectTimeoutError;
+#[derive(PartialEq, Eq, Clone, Copy, Debug)]
+pub struct TrySelectError;
+#[derive(PartialEq, Eq, Clone, Copy, Debug)]
+pub enum TryRecvError {
+    Empty,
+    Disconnected,
+}
+#[derive(PartialEq, Eq, Clone, Copy, Debug)]
+pub enum RecvTimeoutError {
+    Timeout,
+    Disconnected,
+}
+#[derive(PartialEq, Eq, Clone, Copy)]
+pub enum TrySendError<T> {
+    Full(T),
+    Disconnected(T),
+}
+impl<T> fmt::Debug for TrySendError<T> {
+    fn fmt(&self, f: &mut fmt::Formatter) -> fmt::Result {
+        match self {
+            TrySendError::Full(_) => write!(f, "Full(..)"),
+            TrySendError::Disconnected(_) => write!(f, "Disconnected(..)"),
+        }
+    }
+}
+macro_rules! disp {
+    ($t:ty, $s:expr) => {
+        impl fmt::Display for $t {
+            fn fmt(&self, f: &mut fmt::Formatter) -> fmt::Result {
+                write!(f, $s)
+            }
+        }
+        impl std::error::Error for $t {}
+    };
+}
+disp!(SelectTimeoutError, "timed out waiting on select");
+disp!(TrySelectError, "all operations in select would block");
+disp!(TryRecvError, "receiving on an empty or disconnected channel");
+disp!(RecvTimeoutError, "timed out or disconnected");
+impl std::error::Error for RecvError {}
 impl<T> fmt::Debug for SendError<T> {
     fn fmt(&self, f: &mut fmt::Formatter) -> fmt::Result {
         write!(f, "SendError(..)")
@@ -95,6 +137,20 @@ impl<T> Sender<T> {
         }
     }
 }
+impl<T> Sender<T> {
+    pub fn len(&self) -> usize {
+        self.inner.q.lock().unwrap().0.len()
+    }
+    pub fn is_empty(&self) -> bool {
+        self.len() == 0
+    }
+    pub fn is_full(&self) -> bool {
+        self.len() >= self.inner.cap
+    }
+    pub fn capacity(&self) -> Option<usize> {
+        Some(self.inner.cap)
+    }
+}
 impl<T> Drop for Sender<T> {
     fn drop(&mut self) {
         if vsched::controlled() {
@@ -122,6 +178,34 @@ impl<T> Drop for Receiver<T> {
     }
 }
 impl<T> Receiver<T> {
+    pub fn recv(&self) -> Result<T, RecvError> {
+        let mut sel = Select::new();
+        sel.recv(self);
+        let op = sel.select();
+        op.recv(self)
+    }
+    pub fn try_recv(&self) -> Result<T, TryRecvError> {
+        let mut sel = Select::new();
+        sel.recv(self);
+        match sel.try_select() {
+            Ok(op) => op.recv(self).map_err(|_| TryRecvError::Disconnected),
+            Err(_) => Err(TryRecvError::Empty),
+        }
+    }
+    pub fn recv_timeout(&self, timeout: std::time::Duration) -> Result<T, RecvTimeoutError> {
+        let mut sel = Select::new();
+        sel.recv(self);
+        match sel.select_timeout(timeout) {
+            Ok(op) => op.recv(self).map_err(|_| RecvTimeoutError::Disconnected),
+            Err(_) => Err(RecvTimeoutError::Timeout),
+        }
+    }
+    pub fn capacity(&self) -> Option<usize> {
+        Some(self.inner.cap)
+    }
+    pub fn is_full(&self) -> bool {
+        self.len() >= self.inner.cap
+    }
     pub fn len(&self) -> usize {
         self.inner.q.lock().unwrap().0.len()
     }
@@ -163,23 +247,36 @@ impl<'a> Select<'a> {
         });
         self.probes.len() - 1
     }
-    pub fn select(&mut self) -> SelectedOperation<'a> {
+    /// kind: 0 blocking, 1 timeout, 2 non-blocking
+    fn select_impl(&mut self, kind: u8, dur: Option<std::time::Duration>) -> Option<SelectedOperation<'a>> {
         if vsched::controlled() {
             let ids: Vec<usize> = self.probes.iter().map(|p| p.id).collect();
-            let (alt, r) = vsched::park(Op::Select(ids.clone()));
+            let (alt, r) = vsched::park(Op::Select(ids.clone(), kind));
+            if alt == vsched::ALT_NONE {
+                return None;
+            }
             let index = ids.iter().position(|c| *c == alt).expect("select alt");
-            return SelectedOperation { index, got_item: r == 1, _p: Default::default() };
+            return Some(SelectedOperation { index, got_item: r == 1, _p: Default::default() });
         }
-        assert!(!self.probes.is_empty(), "select with no operations would block forever");
+        assert!(kind != 0 || !self.probes.is_empty(), "select with no operations would block forever");
+        let deadline = dur.map(|d| std::time::Instant::now() + d);
         let mut g = ACTIVITY.0.lock().unwrap();
         loop {
             for (index, p) in self.probes.iter().enumerate() {
                 let (has, alive) = (p.ready)();
                 if has {
-                    return SelectedOperation { index, got_item: true, _p: Default::default() };
+                    return Some(SelectedOperation { index, got_item: true, _p: Default::default() });
                 }
                 if !alive {
-                    return SelectedOperation { index, got_item: false, _p: Default::default() };
+                    return Some(SelectedOperation { index, got_item: false, _p: Default::default() });
+                }
+            }
+            if kind == 2 {
+                return None;
+            }
+            if let Some(dl) = deadline {
+                if std::time::Instant::now() >= dl {
+                    return None;
                 }
             }
             let (g2, _) = ACTIVITY
@@ -188,6 +285,15 @@ impl<'a> Select<'a> {
                 .unwrap();
             g = g2;
         }
+    }
+    pub fn select(&mut self) -> SelectedOperation<'a> {
+        self.select_impl(0, None).expect("blocking select returned nothing")
+    }
+    pub fn select_timeout(&mut self, timeout: std::time::Duration) -> Result<SelectedOperation<'a>, SelectTimeoutError> {
+        self.select_impl(1, Some(timeout)).ok_or(SelectTimeoutError)
+    }
+    pub fn try_select(&mut self) -> Result<SelectedOperation<'a>, TrySelectError> {
+        self.select_impl(2, None).ok_or(TrySelectError)
     }
 }
 impl<'a> SelectedOperation<'a> {
